@@ -337,3 +337,17 @@ package app
 //@   ensures [lists_reported_equal_are_equal] result ==> len(a) == len(b) && forall j int :: 0 <= j && j < len(a) ==> a[j] == b[j]
 //@ func publishPolicyEqual
 //@   ensures [C15:publish_policy_reported_equal_is_equal] result ==> a.DirectEnabled == b.DirectEnabled && a.ManagedEnabled == b.ManagedEnabled && a.AllowPullRoutes == b.AllowPullRoutes && a.AllowDeliverRoutes == b.AllowDeliverRoutes && a.RequireActor == b.RequireActor && a.RequireRequestID == b.RequireRequestID && a.FailClosed == b.FailClosed && len(a.ActorAllowlist) == len(b.ActorAllowlist) && len(a.ActorPrefixes) == len(b.ActorPrefixes) && (forall j int :: 0 <= j && j < len(a.ActorAllowlist) ==> a.ActorAllowlist[j] == b.ActorAllowlist[j]) && (forall j int :: 0 <= j && j < len(a.ActorPrefixes) ==> a.ActorPrefixes[j] == b.ActorPrefixes[j])
+
+// ---- C16 wiring: every compiled egress rule reaches the dispatcher's policy, in order, unchanged ----
+//@ func mapEgressRules
+//@   loop 1 invariant [copied_so_far] rangeindex < len(rules) && len(out) == rangeindex + 1 && forall j int :: 0 <= j && j < len(out) ==> out[j].Host == rules[j].Host && out[j].Subdomains == rules[j].Subdomains && out[j].IsCIDR == rules[j].IsCIDR
+//@   ensures [C16:every_compiled_rule_reaches_the_dispatcher_in_order_unchanged] len(result) == len(rules) && forall j int :: 0 <= j && j < len(rules) ==> result[j].Host == rules[j].Host && result[j].Subdomains == rules[j].Subdomains && result[j].IsCIDR == rules[j].IsCIDR
+
+// ---- C06/C17 wiring: the dispatcher is configured with the compiled targets: url, timeout, retry range and signing versions as compiled ----
+//@ spec
+//@ pred targetAsCompiled(t dispatcher.TargetConfig, d config.CompiledDeliver) := t.URL == d.URL && t.Timeout == d.Timeout && t.Retry.Type == d.Retry.Type && t.Retry.Max == d.Retry.Max && t.Retry.Base == d.Retry.Base && t.Retry.Cap == d.Retry.Cap && ((t.SignHMAC != nil) == d.SigningHMAC.Enabled)
+//@ func buildDispatchRoutes
+//@   loop 3 invariant [versions_copied_so_far] rangeindex < len(d.SigningHMAC.SecretVersions) && len(secretVersions) == rangeindex + 1 && forall j int :: 0 <= j && j < len(secretVersions) ==> secretVersions[j].ID == d.SigningHMAC.SecretVersions[j].ID && secretVersions[j].Ref == d.SigningHMAC.SecretVersions[j].ValueRef && secretVersions[j].ValidFrom == d.SigningHMAC.SecretVersions[j].ValidFrom && secretVersions[j].ValidUntil == d.SigningHMAC.SecretVersions[j].ValidUntil && secretVersions[j].HasUntil == d.SigningHMAC.SecretVersions[j].HasUntil
+//@   loop 2 invariant [targets_copied_so_far] rangeindex < len(rt.Deliveries) && len(targets) == rangeindex + 1 && forall j int :: 0 <= j && j < len(targets) ==> targetAsCompiled(targets[j], rt.Deliveries[j])
+//@   loop 1 invariant [routes_so_far_are_compiled_deliver_routes] rangeindex < len(compiled.Routes) && forall j int :: 0 <= j && j < len(routes) ==> exists k int :: 0 <= k && k <= rangeindex && routes[j].Route == compiled.Routes[k].Path && routes[j].Concurrency == compiled.Routes[k].DeliverConcurrency && len(routes[j].Targets) == len(compiled.Routes[k].Deliveries) && len(compiled.Routes[k].Deliveries) > 0
+//@   ensures [C06:every_dispatch_route_is_a_compiled_deliver_route_with_all_its_targets] forall j int :: 0 <= j && j < len(result) ==> exists k int :: 0 <= k && k < len(compiled.Routes) && result[j].Route == compiled.Routes[k].Path && result[j].Concurrency == compiled.Routes[k].DeliverConcurrency && len(result[j].Targets) == len(compiled.Routes[k].Deliveries)
